@@ -45,6 +45,18 @@ func genC08(g gen.G) C08Case {
 		}
 		w.Paths[0].Files[fi].Text = strings.Join(lines, "\n")
 	}
+	if g.Chance(20) {
+		// a map declaration whose keys need quoting / escaping when written as index steps, and a
+		// consumer indexing that map: the candidates offered behind "tags[" are those keys
+		typ, nm := gen.Pick(g, []string{"aws", "az"}), gen.Pick(g, []string{"q", "cé", "a"})
+		key := gen.Pick(g, []string{`"say \"hi\""`, `"a b"`, `"é"`, `"x\\y"`, `"tab\there"`})
+		frag := fmt.Sprintf("resource %q %q {\n  tags = { %s = \"v\", k = \"w\" }\n}\noutput \"qq\" {\n  %s = %s.%s.tags[\"k\"]\n}\n", typ, nm, key, gen.Pick(g, []string{"value", "str"}), typ, nm)
+		f := &w.Paths[0].Files[g.Int(0, len(w.Paths[0].Files)-1)]
+		if !strings.HasSuffix(f.Text, "\n") {
+			f.Text += "\n"
+		}
+		f.Text += frag
+	}
 	return C08Case{World: w}
 }
 
@@ -240,7 +252,7 @@ func checkC08(c C08Case) Result {
 			byAddr["local:"+t.LocalAddr.String()] = append(byAddr["local:"+t.LocalAddr.String()], t)
 		}
 	}
-	roundTrips := 0
+	roundTrips, specialTrips := 0, 0
 	refCands := 0
 	for _, f := range p.Files {
 		hf := pc.Files[f.Name]
@@ -319,10 +331,19 @@ func checkC08(c C08Case) Result {
 				case lang.ReferenceCandidateKind:
 					refCands++
 					r.Class("reference-candidate")
+					if strings.Contains(cd.Label, `\"`) {
+						r.Class("candidate-label-with-escaped-quote")
+					}
 					abs, locs := byAddr[cd.Label], byAddr["local:"+cd.Label]
 					if len(abs)+len(locs) == 0 {
 						r.Fail("c08:ref-not-a-declaration", "%s candidate %d %q is not the address of any collected declaration\n%s", cl, i, cd.Label, clip(text, 900))
 						continue
+					}
+					// the text to insert is the reference itself: it reads back as a traversal denoting the label
+					if tr, diags := hclsyntax.ParseTraversalAbs([]byte(cd.TextEdit.NewText), "cand", hcl.InitialPos); diags.HasErrors() {
+						r.Fail("c08:ref-text-not-a-reference", "%s candidate %d %q: the text it inserts (%q) does not parse as a reference: %s", cl, i, cd.Label, cd.TextEdit.NewText, diags.Error())
+					} else if addr, err := lang.TraversalToAddress(tr); err != nil || addr.String() != cd.Label {
+						r.Fail("c08:ref-text-denotes-other-address", "%s candidate %d %q: the text it inserts (%q) denotes %q (err %v)", cl, i, cd.Label, cd.TextEdit.NewText, addr.String(), err)
 					}
 					if !strings.HasPrefix(cd.Label, typed) {
 						r.Fail("c08:ref-ignores-typed-text", "%s candidate %d %q does not start with the typed text %q", cl, i, cd.Label, typed)
@@ -375,8 +396,15 @@ func checkC08(c C08Case) Result {
 						}
 						// (not inside call arguments: text inserted in front of a following argument
 						// such as ["x"] fuses with it into an index expression)
-						if fit != nil && roundTrips < 4 && !inCallArg {
-							roundTrips++
+						// (a small budget per case; labels that need quoting / escaping when written get their own)
+						special := strings.ContainsAny(cd.Label, "\"\\ ") || !isASCII(cd.Label)
+						if fit != nil && (roundTrips < 4 || special && specialTrips < 4) && !inCallArg && !afterDanglingLine(text, rg.Start.Byte) {
+							if special {
+								specialTrips++
+								r.Class("round-trip-of-label-needing-quotes")
+							} else {
+								roundTrips++
+							}
 							newText := text[:rg.Start.Byte] + cd.TextEdit.NewText + text[rg.End.Byte:]
 							wm := cloneWorld(c.World)
 							for k := range wm.Paths[0].Files {
@@ -384,7 +412,7 @@ func checkC08(c C08Case) Result {
 									wm.Paths[0].Files[k].Text = newText
 								}
 							}
-							if w2, pi := SafeBuild(func() *world.World { return world.Build(wm) }); pi == nil {
+							if w2, pi := SafeBuild(func() *world.World { return world.Build(wm) }); pi == nil && insertedIntoSameValue(w2, p.Path, f.Name, a.Name, rg.Start.Byte, rg.Start.Byte+len(cd.TextEdit.NewText)) {
 								gd := Exec(w2, w2.Decoder(), Call{Kind: "gotoDef", Path: 0, File: f.Name, Byte: rg.Start.Byte})
 								if gd.Panic == nil {
 									r.Class("round-trip")
@@ -486,3 +514,60 @@ var _ = hcl.Pos{}
 
 func TestC08(t *testing.T)        { Run(t, "C08", genC08, checkC08) }
 func TestReplay_C08(t *testing.T) { Replay(t, "C08", checkC08) }
+
+func isASCII(s string) bool {
+	for i := 0; i < len(s); i++ {
+		if s[i] >= 0x80 {
+			return false
+		}
+	}
+	return true
+}
+
+// insertedIntoSameValue reports whether, in the edited text, the inserted range s-e lies inside the
+// value of an attribute of the given name (in half-typed text an insertion on a following line can
+// end up as the start of the next item instead).
+func insertedIntoSameValue(w2 *world.World, path, file, attr string, s, e int) bool {
+	pc := w2.Reader.Ctx(path)
+	if pc == nil || pc.Files[file] == nil {
+		return false
+	}
+	body, ok := pc.Files[file].Body.(*hclsyntax.Body)
+	if !ok {
+		return false
+	}
+	found := false
+	_ = hclsyntax.VisitAll(body, func(n hclsyntax.Node) hcl.Diagnostics {
+		if at, ok := n.(*hclsyntax.Attribute); ok && at.Name == attr {
+			if er := at.Expr.Range(); er.Start.Byte <= s && e <= er.End.Byte && at.EqualsRange.End.Byte <= s {
+				found = true
+			}
+		}
+		return nil
+	})
+	return found
+}
+
+// afterDanglingLine reports whether the insertion point sits on a fresh line behind something other
+// than an opening bracket or a comma ("flag = <newline> |"): a value cannot continue there, so text
+// inserted at that point starts the next item instead of completing the value.
+func afterDanglingLine(text string, at int) bool {
+	i := at - 1
+	for i >= 0 && (text[i] == ' ' || text[i] == '\t' || text[i] == '\r') {
+		i--
+	}
+	if i < 0 || text[i] != '\n' {
+		return false
+	}
+	for i >= 0 && (text[i] == ' ' || text[i] == '\t' || text[i] == '\r' || text[i] == '\n') {
+		i--
+	}
+	if i < 0 {
+		return true
+	}
+	switch text[i] {
+	case '[', '(', '{', ',':
+		return false
+	}
+	return true
+}
